@@ -261,7 +261,7 @@ func checkDiags(t *rapid.T, prop, dir string, fs []fault, ds diag.Diagnostics, h
 	// diagnostic for the same field in two list elements are two diagnostics)
 	type want struct {
 		e     expDiag
-		kinds map[bool]bool
+		sites int
 		kind  string
 	}
 	wants := map[string]*want{}
@@ -269,10 +269,10 @@ func checkDiags(t *rapid.T, prop, dir string, fs []fault, ds diag.Diagnostics, h
 		for _, e := range f.expect {
 			w := wants[e.path]
 			if w == nil {
-				w = &want{e: e, kinds: map[bool]bool{}, kind: f.kind}
+				w = &want{e: e, kind: f.kind}
 				wants[e.path] = w
 			}
-			w.kinds[e.conversion] = true
+			w.sites++ // faults at different sites of one field may produce distinct diagnostics for it
 		}
 	}
 	used := make([]bool, len(errs))
@@ -280,7 +280,14 @@ func checkDiags(t *rapid.T, prop, dir string, fs []fault, ds diag.Diagnostics, h
 	for k := range wants {
 		keys = append(keys, k)
 	}
-	sort.Strings(keys)
+	// exact paths claim their diagnostics first, then the suffix-only ones (under embedded messages)
+	sort.Slice(keys, func(i, j int) bool {
+		a, b := wants[keys[i]], wants[keys[j]]
+		if a.e.suffixOnly != b.e.suffixOnly {
+			return !a.e.suffixOnly
+		}
+		return keys[i] < keys[j]
+	})
 	for _, k := range keys {
 		w := wants[k]
 		n := 0
@@ -290,9 +297,9 @@ func checkDiags(t *rapid.T, prop, dir string, fs []fault, ds diag.Diagnostics, h
 				n++
 			}
 		}
-		if n < 1 || n > len(w.kinds) {
-			violate(t, prop+"/"+dir+"/one-diagnostic-per-fault/"+w.kind, "%s: expected exactly one error diagnostic naming %s, got %d\nall error diagnostics: %v\nfaults: %s\nhistory: %s",
-				what, w.e.path, n, errs, describeFaults(fs), strings.Join(h.lines, " ; "))
+		if n < 1 || n > w.sites {
+			violate(t, prop+"/"+dir+"/one-diagnostic-per-fault/"+w.kind, "%s: expected one error diagnostic naming %s (at most %d for %d fault sites on it), got %d\nall error diagnostics: %v\nfaults: %s\nhistory: %s",
+				what, w.e.path, w.sites, w.sites, n, errs, describeFaults(fs), strings.Join(h.lines, " ; "))
 		}
 	}
 	for i, s := range errs {
